@@ -50,6 +50,7 @@ ALL_LOOPS = ("select", "asyncio", "tornado", "twisted", "trio", "zmq")
 ALARM_DELAY = 0.003
 INIT_SIZE = (16, 4)
 TWISTED_IDLE_EXEMPT = 0.005
+STALL_S = 3.0
 
 CHECKS = {
     "C12/order": "input filter -> topmost widget -> unhandled-input handler iff not handled, in arrival order",
@@ -75,6 +76,32 @@ def available_loops():
         "zmq": "ZMQEventLoop",
     }
     return [k for k in ALL_LOOPS if hasattr(urwid, names[k])]
+
+
+def _preimport(loops):
+    """Import in the PARENT every module a session imports lazily, so that the forked children inherit them.
+
+    Triage correction (timing/load dependence, not a property of urwid): the children used to import
+    twisted.internet.selectreactor (and posixbase, tcp, ...), pty, termios, ... themselves, after the watchdog
+    had been started.  With all cores busy those imports alone took longer than the 4 s watchdog once in a few
+    hundred sessions, which was then reported as "run() did not end" although run() had not even been entered
+    (empty trace; faulthandler showed the child inside importlib under _install_wait_hook).
+    """
+    import asyncio, fcntl, logging, pty, selectors, socket, struct, termios, threading  # noqa: F401, E401
+
+    import urwid
+    import urwid.display.raw  # noqa: F401
+    from urwid.display.common import BaseScreen  # noqa: F401
+
+    if "twisted" in loops:
+        from twisted.internet.selectreactor import SelectReactor  # noqa: F401
+    if "trio" in loops:
+        import trio  # noqa: F401
+    if "zmq" in loops:
+        import zmq  # noqa: F401
+    if "tornado" in loops:
+        import tornado.ioloop  # noqa: F401
+    return urwid
 
 
 # =========================================================================================== child
@@ -134,12 +161,14 @@ class Harness:
 
     # ---- injection points
     def arm_stall(self, why):
-        """Declare the session hung unless the application sees progress (or run() ends) within a second.
-        Not immediate: some loops (trio) poll once more with a long timeout while they are shutting down."""
+        """Declare the session hung unless the application sees progress (or run() ends) within STALL_S.
+        Not immediate: some loops (trio) poll once more with a long timeout while they are shutting down.
+        (Triage: 1 s -> STALL_S = 3 s; the grace period only has to outlast a shutdown that needs a few ms of
+        CPU, but on a machine with all cores busy a second of wall clock is not a safe bound for that.)"""
         if self.stall_timer is None:
             import threading
 
-            t = threading.Timer(1.0, self.hang, [why])
+            t = threading.Timer(STALL_S, self.hang, [why])
             t.daemon = True
             t.start()
             self.stall_timer = t
@@ -727,12 +756,17 @@ def _child_main(case, wfd, watchdog_s):
             H.result["watchdog"] = True
             finish(H.result)
 
-        threading.Thread(target=watchdog, daemon=True).start()
         if case.get("mutate"):  # sanity mutations of the code under test, see bounded/_c12_mut.py
             from bounded import _c12_mut
 
             _c12_mut.apply(case["mutate"])
         H.build()
+        # Triage correction: the watchdog times run() only (it used to be started before build(), so that
+        # set-up work - imports, creating the reactor - was charged to run(); see _preimport).  It is a backstop
+        # for busy loops and deadlocks and generous on purpose: every hang the oracle knows how to recognise is
+        # recognised logically in Harness.on_wait/feed (the loop blocks with nothing left that could wake it),
+        # so on a tree without hangs its length costs nothing, and a loaded machine cannot trip it.
+        threading.Thread(target=watchdog, daemon=True).start()
         H.in_run = True
         try:
             rv = H.loop.run()
@@ -1161,7 +1195,9 @@ def _sample(case, res):
 def run(tier="quick", seed=0) -> dict:
     t0 = time.time()
     cases, loops = build_cases(tier, seed)
-    results = run_cases(cases, procs=16, watchdog_s=4.0 if tier == "quick" else 6.0, kill_s=9.0 if tier == "quick" else 12.0)
+    _preimport(loops)
+    # watchdog 4 s/6 s -> 10 s, kill 9 s/12 s -> 20 s (triage: see _child_main; no session hangs on the current tree)
+    results = run_cases(cases, procs=16, watchdog_s=10.0, kill_s=20.0)
     skipped = [l for l in ALL_LOOPS if l not in loops]
     bound = (
         "%d forked sessions: loops %s%s; screens fake+hook / fake without hook (select only) / raw Screen on a pty "
@@ -1198,6 +1234,10 @@ def run(tier="quick", seed=0) -> dict:
             detail = None
             if not ok:
                 detail = {"why": why, "case": case, "how": "bounded.C12.replay(%r, detail['case'])" % name}
+                # flat copies of the distinguishing inputs, for known-finding `when` expressions (case.loop, ...)
+                inj = case.get("inject") or {}
+                detail.update(screen=case["screen"], loop=case["loop"], pop_ups=case["pop_ups"])
+                detail.update(inject_kind=inj.get("kind"), inject_idx=inj.get("idx"), inject_exc=inj.get("exc"))
                 for f in ("outcome", "exc_repr", "hung", "input_fd_open_after"):
                     if res.get(f) is not None:
                         detail[f] = res[f]
@@ -1209,7 +1249,8 @@ def run(tier="quick", seed=0) -> dict:
 
 def replay(check_name: str, case: dict) -> dict:
     case = case.get("case", case)
-    res = run_cases([case], procs=1, watchdog_s=6.0, kill_s=12.0)[0]
+    _preimport(available_loops())
+    res = run_cases([case], procs=1, watchdog_s=10.0, kill_s=20.0)[0]
     verdicts = judge(case, res)
     v = verdicts.get(check_name)
     detail = {
